@@ -11,6 +11,11 @@ CONSTANTS
   TrailSigs = {"HUP", "INT", "TERM"}
   MaxTrail = 1
   PanicAborts = FALSE
-INVARIANTS STypeOK AtMostOnce NothingBeforeShutdownSignal ReverseOrder AtReturn StatusOnlyAtReturn
+  RegSplits = {"each"}
+  RegBufs = {"fresh"}
+  RegAfters = {"keep"}
+  RegEmpties = {FALSE}
+  AddAliases = FALSE
+INVARIANTS Registered STypeOK AtMostOnce NothingBeforeShutdownSignal ReverseOrder AtReturn StatusOnlyAtReturn
 PROPERTIES LaterSignalsChangeNothing EventuallyReturns
 CHECK_DEADLOCK FALSE
